@@ -227,7 +227,16 @@ pub struct GenOpts {
   /// the first `max_roots` specifiers may be roots (a root is an import
   /// without attribute, so it never carries an `imported_with` attribute)
   pub max_roots: usize,
+  /// when set, exactly this many leading specifiers are root candidates
+  pub force_roots: Option<usize>,
+  /// restrict the import-form alphabet (None = every form the module kind allows)
+  pub forms: Option<&'static [Form]>,
 }
+
+/// The core alphabet used for *complete* enumeration of small graph shapes.
+pub const CORE_FORMS: &[Form] = &[Form::Import, Form::Dynamic, Form::ImportType];
+pub const CORE_KINDS: &[Kind] = &[Kind::Ts, Kind::Missing, Kind::Js, Kind::Json, Kind::Redirect];
+pub const CORE_KINDS_QUICK: &[Kind] = &[Kind::Ts, Kind::Missing];
 
 impl World {
   pub fn base(&self) -> &'static str {
@@ -256,7 +265,10 @@ impl World {
       if o.deviation_cost { ch.choose(label, n) } else { ch.shape(label, n) }
     };
     let remote = o.allow_remote && pick("remote", 2) == 1;
-    let n_roots = 1 + pick("extra_roots", o.max_roots.max(1));
+    let n_roots = match o.force_roots {
+      Some(n) => n,
+      None => 1 + pick("extra_roots", o.max_roots.max(1)),
+    };
     let mut kinds = vec![];
     for i in 0..o.n_specs {
       if i == 0 {
@@ -310,7 +322,10 @@ impl World {
       let src_pos = min_src_pos + s - 1;
       min_src_pos = src_pos;
       let src = sources[src_pos];
-      let forms = forms_for(kinds[src]);
+      let mut forms = forms_for(kinds[src]);
+      if let Some(allowed) = o.forms {
+        forms.retain(|f| allowed.contains(f));
+      }
       let form = forms[pick("form", forms.len())];
       let mut targets: Vec<Target> = (0..o.n_specs).map(Target::Spec).collect();
       if o.special_targets {
@@ -417,17 +432,22 @@ impl World {
     let mut head = String::new();
     let mut body = String::new();
     let mut written = vec![];
-    for (ei, e) in self.edges.iter().enumerate() {
+    let mut local = 0usize;
+    for (gi, e) in self.edges.iter().enumerate() {
       if e.src != i {
         continue;
       }
+      // names depend on the position inside this module only, so that a
+      // module's text is a function of its own import list
+      let ei = local;
+      local += 1;
       let t = self.target_text(e.dst);
       let a = self.attr_clause(e.dst);
       let da = self.dyn_attr(e.dst);
       let mut w = |text: &str, dynamic: bool| {
         written.push(Written {
           src: i,
-          edge: ei,
+          edge: gi,
           form: e.form,
           text: text.to_string(),
           dynamic,
@@ -625,5 +645,45 @@ impl World {
 
   pub fn key(&self) -> u64 {
     crate::engine::hash_of(&format!("{:?}", self))
+  }
+}
+
+
+/// A bounded space of worlds: the generic one is explored deviation-bounded
+/// from the all-TypeScript/no-edge base world; the core one is enumerated
+/// completely (every graph shape over a small alphabet).
+#[derive(Clone, Copy)]
+pub struct Space {
+  pub n_specs: usize,
+  pub max_edges: usize,
+  pub kinds: &'static [Kind],
+  pub forms: Option<&'static [Form]>,
+  pub cost: bool,
+  pub special: bool,
+  pub remote: bool,
+}
+
+impl Space {
+  pub fn generic(n_specs: usize, max_edges: usize) -> Space {
+    Space { n_specs, max_edges, kinds: KINDS, forms: None, cost: true, special: true, remote: true }
+  }
+  pub fn core(n_specs: usize, max_edges: usize, kinds: &'static [Kind]) -> Space {
+    Space { n_specs, max_edges, kinds, forms: Some(CORE_FORMS), cost: false, special: false, remote: false }
+  }
+  pub fn generate(&self, ch: &Ch, max_roots: usize, force_roots: Option<usize>) -> World {
+    World::generate(
+      ch,
+      &GenOpts {
+        n_specs: self.n_specs,
+        max_edges: self.max_edges,
+        special_targets: self.special,
+        allow_remote: self.remote,
+        kinds: self.kinds,
+        deviation_cost: self.cost,
+        max_roots,
+        force_roots,
+        forms: self.forms,
+      },
+    )
   }
 }
